@@ -101,19 +101,30 @@ def harness(ctx, case):
         out['violations'].append({'key': 'C16:%s:%s:%s' % (key, f, role), 'what': what + ' — batch `ucg build %s`' % ' '.join(batch),
                                   'case': {'kind': 'cli-batch', 'files': files, 'batch': batch, 'file': f}, 'kind': key})
 
+    # observable state after the batch: path -> content of the last write
+    final = {}
+    for s in segs:
+        for p_, data in s['artifacts'].items():
+            final[p_] = data
+    union_alone = {}
     for pos, s in enumerate(segs):
         a, _ = alone[s['file']]
         out['asserts'] += 2
         if s['ok'] != a['ok']:
             report('outcome-depends-on-batch', '%s %s in the batch but %s alone (%s)' % (s['file'], 'builds' if s['ok'] else 'fails', 'builds' if a['ok'] else 'fails', (s['err'] or a['err'])[:1]), s['file'], pos)
             return out
-        if sorted(s['artifacts']) != sorted(a['artifacts']):
-            report('artifacts-depend-on-batch', 'building %s touches %s in the batch but %s alone' % (s['file'], sorted(s['artifacts']), sorted(a['artifacts'])), s['file'], pos)
-            return out
-        for p in s['artifacts']:
-            if not C14.same_text(ctx, s['artifacts'][p], a['artifacts'][p]):
-                report('artifact-bytes-depend-on-batch', 'artifact %s of %s differs between batch and alone' % (p, s['file']), s['file'], pos)
+        for p_, data in a['artifacts'].items():
+            union_alone[p_] = data
+            if p_ not in final:
+                report('artifact-missing-in-batch', 'building %s alone produces %s, which does not exist after the batch' % (s['file'], p_), s['file'], pos)
                 return out
+            if not C14.same_text(ctx, final[p_], data):
+                report('artifact-bytes-depend-on-batch', 'artifact %s differs between the batch and building %s alone' % (p_, s['file']), s['file'], pos)
+                return out
+    extra = sorted(set(final) - set(union_alone))
+    if extra:
+        report('extra-artifact-in-batch', 'the batch leaves %s behind, which no file produces alone' % extra, batch[0], 0)
+        return out
     any_fail = any(not s['ok'] for s in segs)
     out['asserts'] += 1
     if (exited != 0) != any_fail:
